@@ -24,3 +24,11 @@ func VerifFrostTransport(p2pNode host.Host, peers map[peer.ID]cluster.NodeIdx, b
 func VerifRunFrost(ctx context.Context, tp any, numValidators, numNodes, threshold, shareIdx int, dkgCtx string) ([]share.Share, error) {
 	return runFrostParallel(ctx, tp.(*frostP2P), uint32(numValidators), uint32(numNodes), uint32(threshold), uint32(shareIdx), dkgCtx)
 }
+
+// VerifWrapBroadcast lets a harness stand between one (faulty) node's FROST rounds and the broadcast
+// protocol: wrap receives the node's real broadcast function and returns the one the rounds will call.
+// What the node broadcasts still goes through the real signed broadcast protocol.
+func VerifWrapBroadcast(tp any, wrap func(bcast.BroadcastFunc) bcast.BroadcastFunc) {
+	f := tp.(*frostP2P)
+	f.bcastFunc = wrap(f.bcastFunc)
+}
